@@ -200,6 +200,8 @@ pub struct Program<'p> {
     span_mgr: SpanManager,
     gc_ctx: GcContext<'p>,
     objs_after_last_gc: usize,
+    #[cfg(feature = "verif")]
+    verif_gc: VerifGc,
     max_stack: usize,
     exprs: Exprs<'p>,
     stdlib_src_id: SourceId,
@@ -251,6 +253,8 @@ impl<'p> Program<'p> {
             span_mgr,
             gc_ctx,
             objs_after_last_gc: 0,
+            #[cfg(feature = "verif")]
+            verif_gc: VerifGc::default(),
             max_stack: 500,
             exprs,
             stdlib_src_id,
@@ -294,6 +298,14 @@ impl<'p> Program<'p> {
 
     /// Runs garbage collection under certain conditions.
     pub fn maybe_gc(&mut self) {
+        #[cfg(feature = "verif")]
+        if let Some(collect) = self.verif_gc.decide() {
+            if collect {
+                self.verif_gc.runs += 1;
+                self.gc();
+            }
+            return;
+        }
         let num_objects = self.gc_ctx.num_objects();
         if num_objects > 1000 && (num_objects / 2) > self.objs_after_last_gc {
             self.gc();
@@ -538,6 +550,64 @@ impl<'p> Program<'p> {
             unreachable!();
         };
         Ok(s)
+    }
+}
+
+/// Collection schedule used by the verification harness (feature `verif`).
+#[cfg(feature = "verif")]
+#[derive(Clone, Debug, Default)]
+pub enum VerifGcSchedule {
+    /// The normal heuristic of [`Program::maybe_gc`].
+    #[default]
+    Default,
+    /// Never collect from `maybe_gc`.
+    Never,
+    /// Collect at every n-th call of `maybe_gc`.
+    Every(u64),
+    /// Collect exactly at these (sorted) call indexes of `maybe_gc`.
+    AtSteps(Vec<u64>),
+}
+
+#[cfg(feature = "verif")]
+#[derive(Default)]
+struct VerifGc {
+    schedule: VerifGcSchedule,
+    steps: u64,
+    runs: u64,
+}
+
+#[cfg(feature = "verif")]
+impl VerifGc {
+    fn decide(&mut self) -> Option<bool> {
+        let step = self.steps;
+        self.steps += 1;
+        match self.schedule {
+            VerifGcSchedule::Default => None,
+            VerifGcSchedule::Never => Some(false),
+            VerifGcSchedule::Every(n) => Some(n != 0 && (step + 1) % n == 0),
+            VerifGcSchedule::AtSteps(ref steps) => Some(steps.binary_search(&step).is_ok()),
+        }
+    }
+}
+
+#[cfg(feature = "verif")]
+impl Program<'_> {
+    pub fn verif_set_gc_schedule(&mut self, schedule: VerifGcSchedule) {
+        self.verif_gc.schedule = schedule;
+        self.verif_gc.steps = 0;
+        self.verif_gc.runs = 0;
+    }
+
+    pub fn verif_steps(&self) -> u64 {
+        self.verif_gc.steps
+    }
+
+    pub fn verif_gc_runs(&self) -> u64 {
+        self.verif_gc.runs
+    }
+
+    pub fn verif_num_objects(&self) -> usize {
+        self.gc_ctx.num_objects()
     }
 }
 
